@@ -173,6 +173,16 @@ def h2(*a, **k): return None
 def _m21(x): return 2 * x + 1
 
 
+class _CallableClass:
+    """an object that is called like a function (no __name__)"""
+
+    def __call__(self, *a, **k):
+        return None
+
+
+CALLABLE_INSTANCE = _CallableClass()
+
+
 def tgm(x):
     return 2 * x + 1
 
